@@ -279,6 +279,26 @@ type seekReader struct{ r *Reader }
 func (p seekReader) Read(b []byte) (int, error)                { return p.r.Read(b) }
 func (p seekReader) Seek(off int64, whence int) (int64, error) { return p.r.seek(off, whence) }
 
+type byteReader struct{ r *Reader }
+
+func (p byteReader) Read(b []byte) (int, error) { return p.r.Read(b) }
+
+// ReadByte makes the source an io.ByteReader (encoding/xml then does no buffering of its own): one byte per call,
+// through the same plan and fault logic as Read.
+func (p byteReader) ReadByte() (byte, error) {
+	var b [1]byte
+	for i := 0; i < 4; i++ { // a planned zero-length read is not an error for ReadByte: ask again
+		n, err := p.r.Read(b[:])
+		if n == 1 {
+			return b[0], nil // an error delivered together with the byte is reported by the next call (sticky) or lost (transient), as bufio does
+		}
+		if err != nil {
+			return 0, err
+		}
+	}
+	return 0, io.ErrNoProgress
+}
+
 // Wrap presents the source to the library the way the plan's Medium says:
 // "" / "plain": io.Reader only; "seekable": io.ReadSeeker; "bufio": a
 // *bufio.Reader around the plain reader (what the demuxer special-cases).
@@ -288,6 +308,8 @@ func (r *Reader) Wrap() io.Reader {
 		return seekReader{r}
 	case "bufio":
 		return bufio.NewReaderSize(plainReader{r}, 4096)
+	case "bytereader":
+		return byteReader{r}
 	}
 	return plainReader{r}
 }
@@ -299,6 +321,9 @@ type WriteFault struct {
 	Offset int    `json:"offset"`
 	Kind   string `json:"kind"`
 	Short  bool   `json:"short"` // accept the bytes up to Offset (short write) instead of none
+	// Transient: only the call that crosses Offset fails (EINTR, EAGAIN, a quota that frees up again); later
+	// calls succeed. Default: the sink stays broken and every later call fails too.
+	Transient bool `json:"transient,omitempty"`
 }
 
 // WritePlan is the behaviour of a sink.
@@ -346,13 +371,16 @@ func (w *Writer) Write(p []byte) (n int, err error) {
 	f := w.plan.Fault
 	if f != nil && !w.fired && off+len(p) > f.Offset {
 		w.fired = true
-		w.dead = ErrOf(f.Kind)
+		e := ErrOf(f.Kind)
+		if !f.Transient {
+			w.dead = e
+		}
 		w.Fired[f.Kind]++
 		if f.Short && f.Offset > off {
 			n = f.Offset - off
 			w.Buf = append(w.Buf, p[:n]...)
 		}
-		return n, w.dead
+		return n, e
 	}
 	w.Buf = append(w.Buf, p...)
 	w.Calls = append(w.Calls, len(p))
